@@ -677,7 +677,8 @@ def factor_add_terms_ex(
     )
     both_match = (
         False
-        if (left_term.exponent or right_term.exponent) and not two_exp_and_match
+        if (left_term.exponent is not None or right_term.exponent is not None)
+        and not two_exp_and_match
         else True
     )
     if (
@@ -689,10 +690,10 @@ def factor_add_terms_ex(
         result.variable = left_term.variable
         result.exponent = left_term.exponent
 
-    if left_term.exponent and left_term.exponent != result.exponent:
+    if left_term.exponent is not None and left_term.exponent != result.exponent:
         result.leftExponent = left_term.exponent
 
-    if right_term.exponent and right_term.exponent != result.exponent:
+    if right_term.exponent is not None and right_term.exponent != result.exponent:
         result.rightExponent = right_term.exponent
 
     if has_left and left_term.variable != result.variable:
